@@ -1,0 +1,98 @@
+//go:build verif
+// +build verif
+
+package tally
+
+import (
+	"io"
+	"time"
+
+	"github.com/uber-go/tally/v4/internal/verifhook"
+)
+
+// Schedule point identifiers, re-exported for harnesses outside the module.
+const (
+	VerifCtrLoaded1            = verifhook.CtrLoaded1
+	VerifCtrLoaded2            = verifhook.CtrLoaded2
+	VerifGaugeBetweenStores    = verifhook.GaugeBetweenStores
+	VerifGaugeSwapped          = verifhook.GaugeSwapped
+	VerifMetricProbeMissed     = verifhook.MetricProbeMissed
+	VerifPassBegin             = verifhook.PassBegin
+	VerifPassLocked            = verifhook.PassLocked
+	VerifPassEnd               = verifhook.PassEnd
+	VerifCloseEnter            = verifhook.CloseEnter
+	VerifCloseBeforeFinal      = verifhook.CloseBeforeFinal
+	VerifCloseAfterFinal       = verifhook.CloseAfterFinal
+	VerifRegScopeReported      = verifhook.RegScopeReported
+	VerifRemoveHandover1       = verifhook.RemoveHandover1
+	VerifRemoveHandover2       = verifhook.RemoveHandover2
+	VerifReacquireBeforeReport = verifhook.ReacquireBeforeReport
+	VerifSubscopeUpgrade       = verifhook.SubscopeUpgrade
+	VerifM3Entered             = verifhook.M3Entered
+	VerifM3Checked             = verifhook.M3Checked
+	VerifM3CloseCAS            = verifhook.M3CloseCAS
+	VerifM3CloseDrained        = verifhook.M3CloseDrained
+	VerifM3CloseDonech         = verifhook.M3CloseDonech
+	VerifUDPFlushed            = verifhook.UDPFlushed
+	VerifNumPoints             = verifhook.NumPoints
+)
+
+// VerifPointName returns the name of a schedule point.
+func VerifPointName(id int) string {
+	if id < 0 || id >= len(verifhook.Names) {
+		return "?"
+	}
+	return verifhook.Names[id]
+}
+
+// VerifSetHook installs the function called at every schedule point.
+func VerifSetHook(f func(int)) { verifhook.Set(f) }
+
+// VerifNewRootScope is NewRootScope with a chosen registry shard count.
+func VerifNewRootScope(opts ScopeOptions, interval time.Duration, shardCount uint) (Scope, io.Closer) {
+	opts.registryShardCount = shardCount
+	s := newRootScope(opts, interval)
+	return s, s
+}
+
+// VerifNewTestScope is NewTestScope with a chosen registry shard count.
+func VerifNewTestScope(prefix string, tags map[string]string, shardCount uint) TestScope {
+	return newRootScope(ScopeOptions{
+		Prefix:             prefix,
+		Tags:               tags,
+		testScope:          true,
+		registryShardCount: shardCount,
+	}, 0)
+}
+
+// VerifReportPass runs what one tick of the report loop runs.
+func VerifReportPass(s Scope) { s.(*scope).reportLoopRun() }
+
+// VerifReportScope reports one scope the way a report pass or the re-acquire
+// path of a closed scope does, without involving the registry.
+func VerifReportScope(s Scope) {
+	ss := s.(*scope)
+	switch {
+	case ss.reporter != nil:
+		ss.report(ss.reporter)
+	case ss.cachedReporter != nil:
+		ss.cachedReport()
+	}
+}
+
+// VerifKeyForMaps is the multi-map key writer behind KeyForPrefixedStringMap.
+func VerifKeyForMaps(prefix string, maps ...map[string]string) string {
+	return keyForPrefixedStringMaps(prefix, maps...)
+}
+
+// VerifRegistryLen returns the number of distinct non-root scopes registered.
+func VerifRegistryLen(s Scope) int {
+	seen := make(map[*scope]struct{})
+	ss := s.(*scope)
+	ss.registry.ForEachScope(func(x *scope) {
+		if !x.root {
+			seen[x] = struct{}{}
+		}
+	})
+	return len(seen)
+}
